@@ -18,7 +18,7 @@ ID = 'C19'
 
 MANIFEST = dict(
     technique='explicit-state enumeration of the engine x line x (transcription, logits, charset) lattice; real merge_layouts vs a reference arg-max over independently recomputed mean confidences',
-    text='Bounded exhaustive: every tuple of 1-2 engine outputs for one line over the full variant alphabet (6 transcriptions x 6 logit matrices x 2 charset orders), every triple over a 26-variant sub-alphabet (quick) / the full alphabet (thorough) and every pair of engines on two lines over a 12-variant sub-alphabet; the merged line must carry transcription, logits and charset of the same winning engine (first arg-max of the mean character confidence), record the maximum when positive, leave ids/geometry untouched, and merging a layout with a copy of itself must change nothing. Added sub-sweeps: a reference confidence with an independent brute-force alignment, a doubled-letter line, float32 logits of magnitude 95, incremental merging of three engines, pruned logits stored as explicit zeros, and the clause that every recorded confidence is a probability.',
+    text='Bounded exhaustive: every tuple of 1-2 engine outputs for one line over the full variant alphabet (6 transcriptions x 6 logit matrices x 2 charset orders), every triple over a 26-variant sub-alphabet (quick) / the full alphabet (thorough) and every pair of engines on two lines over a 12-variant sub-alphabet; the merged line must carry transcription, logits and charset of the same winning engine (first arg-max of the mean character confidence), record the maximum when positive, leave ids/geometry untouched, and merging a layout with a copy of itself must change nothing. Added sub-sweeps: a reference confidence with an independent brute-force alignment, a doubled-letter line, float32 logits of magnitude 95, incremental merging of three engines, pruned logits stored as explicit zeros, and the clause that every recorded confidence is a probability. Wave 10: a transcription that cannot be aligned (0.5 fallback); two-line pages whose lines carry different character tables (14-variant explicit sub-alphabet); every single failing array allocation of the merge.',
     note='Mean character confidence is recomputed by a reference implementation of the documented definition (it agrees with get_line_confidence on every enumerated case of the unchanged tree); more than 3 engines / 2 lines are not explored.',
     ref='3/C19')
 
